@@ -517,8 +517,11 @@ func fnReadyEnum() {
 			for _, s4 := range append([]string{"-"}, states...) {
 				for _, epicEdge := range []bool{false, true} {
 					for _, dep34 := range []bool{false, true} {
-						for _, variant := range []string{"plain", "t3claimed", "t4pruned"} {
+						for _, variant := range []string{"plain", "t3claimed", "t4pruned", "t2moved-to-E2", "t2moved-out", "t0moved-to-E1"} {
 							if (s4 == "-" && (dep34 || variant == "t4pruned")) || (variant == "t4pruned" && !dep34) {
+								continue
+							}
+							if s2 == "-" && (variant == "t2moved-to-E2" || variant == "t2moved-out") {
 								continue
 							}
 							evs := []ergo.Event{newItem("new_epic", "EEEEE1", "", 1), newItem("new_epic", "EEEEE2", "", 2),
@@ -542,6 +545,16 @@ func fnReadyEnum() {
 							}
 							if dep34 {
 								evs = append(evs, mk("link", 14, ergo.LinkEvent{FromID: "TTTTT3", ToID: "TTTTT4", Type: "depends"}))
+							}
+							// a child that changed epic while unfinished: it counts for the epic it is in now, not for the one it was created in
+							if variant == "t2moved-to-E2" {
+								evs = append(evs, mk("epic", 9, ergo.EpicAssignEvent{ID: "TTTTT2", EpicID: "EEEEE2", TS: ergo.VerifFormatTime(tsAt(9))}))
+							}
+							if variant == "t2moved-out" {
+								evs = append(evs, mk("epic", 9, ergo.EpicAssignEvent{ID: "TTTTT2", EpicID: "", TS: ergo.VerifFormatTime(tsAt(9))}))
+							}
+							if variant == "t0moved-to-E1" {
+								evs = append(evs, mk("epic", 9, ergo.EpicAssignEvent{ID: "TTTTT0", EpicID: "EEEEE1", TS: ergo.VerifFormatTime(tsAt(9))}))
 							}
 							if variant == "t3claimed" {
 								evs = append(evs, mk("claim", 15, ergo.ClaimEvent{ID: "TTTTT3", AgentID: "zz", TS: ergo.VerifFormatTime(tsAt(15))}))
